@@ -86,6 +86,11 @@ def _outer(kind, source, ncols):
         return sel([target(col('y'))], from_clause=source, distinct=True, limit=int(kind[-1]))
     if kind == 'limit-2':
         return sel([target(col('y')), target(col('x'))], from_clause=source, limit=2)
+    if kind == 'order-hidden-key':
+        # the sort key is a subquery column that is not selected, of the same datatype as the selected one
+        return sel([target(col('x'))], from_clause=source, order_by=[ast.OrderBy(col('y'), ast.Ordering.DESC)])
+    if kind == 'order-hidden-expr':
+        return sel([target(ast.Neg(col('x')), 'nx')], from_clause=source, order_by=[ast.OrderBy(ast.Neg(col('y')), ast.Ordering.ASC)])
     if kind == 'order-ties':
         # stable sort on a key with ties: rows with equal y keep the order the source delivers them in
         return sel([target(col('x')), target(col('y'))], from_clause=source, order_by=[ast.OrderBy(col('y'), ast.Ordering.ASC)])
@@ -143,7 +148,7 @@ for _kind in INNER:
     make_from(_kind, 3, None if _kind in USES_K else 300, 1500)
 
 
-ORDER_SENSITIVE = ['order-ties', 'first-last', 'first-last-plain']
+ORDER_SENSITIVE = ['order-ties', 'first-last', 'first-last-plain', 'order-hidden-key', 'order-hidden-expr']
 
 
 def make_from_order(kind, nrows, quick, thorough):
@@ -336,6 +341,40 @@ def make_in_nested(outer_form):
 
 for _form in ('where', 'target', 'from'):
     make_in_nested(_form)
+
+
+DEC_CELLS = [None, 0, 1, 2]
+
+
+@cond('C08.in.mixed-numeric', quick=120,
+      bounds='x [NOT] IN (subquery) with x int and the subquery column decimal, and the reverse (BQL compares int and decimal): '
+             'outer table of 2 rows, inner of <=2 rows, cells from {NULL, 0, 1, 2} (as int or as decimal)',
+      symbolic='(none)', enumerated='cells, inner row count, negation, which side is decimal',
+      params={'a0': int, 'a1': int, 'c0': int, 'c1': int, 'n': int, 'neg': bool, 'dec_outer': bool}, group='C08.in',
+      note='enumerated: a symbolic int cannot meet a C Decimal (R3)')
+def in_mixed_numeric(a0, a1, c0, c1, n, neg, dec_outer):
+    import decimal
+    D = decimal.Decimal
+    n = enum_int(n, 0, 2)
+    avals = [pick(DEC_CELLS, a0), pick(DEC_CELLS, a1)]
+    cvals = [pick(DEC_CELLS, c0), pick(DEC_CELLS, c1)][:n]
+    dec_outer = bool(dec_outer)
+    cast = lambda v, dec: None if v is None else (D(v) if dec else v)    # noqa: E731
+    tcols, ucols = [('a', D if dec_outer else int)], [('c', int if dec_outer else D)]
+    trows = [(cast(v, dec_outer),) for v in avals]
+    urows = [(cast(v, not dec_outer),) for v in cvals]
+    conn = connect(t=HTable('t', tcols, trows), u=HTable('u', ucols, urows))
+    test = (ast.NotIn if neg else ast.In)(col('a'), sel([target(col('c'))], 'u'))
+    stmt = sel([target(col('a'), 'a'), target(test, 'r')], 't')
+    text = native(print_select, stmt)
+    try:
+        got = conn.execute(parse(text)).fetchall()
+    except beanquery.CompilationError:
+        return 'int-decimal-membership-rejected'
+    want = refsem.Ref({'t': (tcols, trows), 'u': (ucols, urows)}).select(stmt)
+    if not same_rows(got, want.rows):
+        return 'membership'
+    return 'ok'
 
 
 @cond('C08.in.cols', quick=30, bounds='x IN (SELECT c, d FROM #u): two-column subquery must be rejected',
